@@ -102,20 +102,16 @@ def run(ctx, rep):
     # ---- L1 ring / branch tokens
     import re as _re
     shape = _re.compile(r"^\[\{\}[A-Za-z]+\{\}\]$")
-    frag = None
-    for q in ctx.cg.region(encf):
-        g = ctx.db.funcs[q]
-        if g.module.name == encf.module.name and sum(1 for _, t, _ in format_templates(ctx, g) if shape.match(t)) >= 2:
-            frag = g
-    if frag is None:
+    from rules.shared import fragment_printer, token_templates
+    _core, frag = fragment_printer(ctx)
+    templates = [(owner, node, tmpl, args) for owner, node, tmpl, args in token_templates(ctx, frag) if shape.match(tmpl)]
+    if len(templates) < 2:
         raise AnalysisError("ring/branch token templates ('[{}Name{}]') not found in the encoder")
     tables = {"Ring": set(ctx.fold.global_value("selfies.grammar_rules", "_PROCESS_RING_CACHE")),
               "Branch": set(ctx.fold.global_value("selfies.grammar_rules", "_PROCESS_BRANCH_CACHE"))}
     allkeys = tables["Ring"] | tables["Branch"]
     n_tmpl = 0
-    for node, tmpl, args in format_templates(ctx, frag):
-        if not shape.match(tmpl):
-            continue
+    for owner, node, tmpl, args in templates:
         n_tmpl += 1
         fields = list(string.Formatter().parse(tmpl))
         lits = [f[0] for f in fields]
@@ -124,7 +120,7 @@ def run(ctx, rep):
             raise AnalysisError("unexpected token template %r" % (tmpl,))
         if not (isinstance(args[0], ast.Call) and isinstance(args[1], ast.Call) and unparse(args[1].func) == "len"):
             raise AnalysisError("%s token is not built from (prefix function, len(index symbols))" % kind)
-        pre, g = prefix_language(ctx, frag, args[0])
+        pre, g = prefix_language(ctx, owner, args[0])
         suffix = ("set", frozenset("123"))          # documented limit: 1..3 index symbols
         tail = lits[2] if len(lits) > 2 else ""
         lang = RL.cat(("lit", lits[0]), pre, ("lit", lits[1]), suffix, ("lit", tail))
